@@ -161,3 +161,16 @@ also("C17", "R-C17-13: the guard of the escape skip in scanChunk is, in integer-
 also("C18", "R-C18-8: every success path of SubstituteParameters with a possibly non-empty dictionary runs through the loop over the steps and the loop over the inspections (or the helper that holds it).")
 also("C20", "R-C20-10: no slice in cmd / in_toto / internal/spiffe is made with a non-zero length and then only appended to.")
 also("C15", "Index-below-length facts are decided on the integer-linear normal form of the comparison (i < len(x)-1 and i+1 < len(x) are the same fact); x[:len(x):len(x)] is a bound idiom.")
+
+# round 13 (data, declarations, types)
+also("C04", "The JSON view of the metadata types equals the frozen wire schema (shared R-C11-1): what is signed after a load is what was signed before.")
+also("C08", "The signed bytes of a (sub)layout follow the frozen wire schema (shared R-C11-1).")
+also("C05", "The hex validator on the signature path accepts both cases (shared R-C12-5): a counted link is not dropped for the spelling of its signer's key.")
+also("C02", "The hex validator on the signature path accepts both cases (shared R-C12-5).")
+also("C09", "Inspection rules are unpacked by the grammar of R-C03-2 (shared): patterns are taken from the rule as written.")
+also("C15", "R-C15-2 compares the dispatch table in front of the asserting constructors with the validator's: no key-type label reaches a constructor unexamined. R-C17-15 (shared): no narrow loop counter.")
+also("C17", "R-C17-14: the in-class state of scanChunk takes two constant values and is never computed from its previous value. R-C17-15: no loop-carried integer stepped by a constant is narrower than 32 bits.")
+also("C03", "R-C17-14 (shared with C17): classes do not nest in scanChunk.")
+also("C18", "R-C18-2 also requires the replacer's pair list to start empty and to receive nothing but the pairs.")
+also("C19", "R-C19-3 also requires that the stored key halves run through the reviewed encoding calls only: nothing is applied to the raw key bytes.")
+also("C20", "R-C20-2 also requires flag registrations that share a destination variable to agree on the default.")
